@@ -135,6 +135,27 @@ func (ex *Exec) verifyFunction(fn *ssa.Function, c *Contract) {
 		fvVals = append(fvVals, v)
 		vars[fv.Name()] = v
 	}
+	// a captured variable the contract names that was renamed: fall back on its declared shape (local name type [#n])
+	for name, d := range c.Locals {
+		if _, ok := vars[name]; ok {
+			continue
+		}
+		n := 0
+		for i, fv := range fn.FreeVars {
+			t := fv.Type()
+			if pt, ok := t.(*types.Pointer); ok {
+				t = pt.Elem()
+			}
+			if typeShort(t) != d.Type {
+				continue
+			}
+			if n == d.N {
+				vars[name] = fvVals[i]
+				break
+			}
+			n++
+		}
+	}
 	ex.topFreeVars = fvVals
 	pre := st.clone()
 	ctx0 := &EvalCtx{ex: ex, pre: pre, post: pre, vars: vars, bound: map[string]Value{}, fn: fn}
